@@ -46,6 +46,7 @@ func NewQueue[T any](opts ...options.Option[Queue[T]]) (queue *Queue[T]) {
 // Add inserts a new element into the queue that can be retrieved via Poll() at the specified time.
 func (t *Queue[T]) Add(value T, scheduledTime time.Time) (addedElement *QueueElement[T]) {
 	// acquire locks
+	verifAddLockHook(t, scheduledTime)
 	t.heapMutex.Lock()
 
 	// prevent modifications of a shutdown queue (checked while holding the lock: Shutdown marks the queue as shutdown
